@@ -13,7 +13,7 @@ COMMON = [
 PROPS = {
     "C01": {
         "level": "exploration",
-        "rule": "96 GraphSpecs x seeded mutation histories (add_node/add_nodes/add_edge/add_edge_tuple/add_edges/add_edge_tuples, 1..20 (quick) or 1..40 (thorough) ops over 2-6 names whose sort order differs from insertion order; weights all-NaN, all-real or wild; one history in 25 contains a batch of 64..70 edges; in half of the histories an identical edge is handed over as the very same Arc again) run in lock-step with the reference Model, plus the same nodes/edges through new_from_nodes_and_edges. A history is non-trivial iff it exercised at least one policy branch (self-loop stored/dropped/rejected, node created/rejected, duplicate appended/rejected/ignored/replaced, node re-add, failing batch); distinct = distinct (specs, history) hashes.",
+        "rule": "96 GraphSpecs x seeded mutation histories (add_node/add_nodes/add_edge/add_edge_tuple/add_edges/add_edge_tuples, 1..20 (quick: 400 histories per spec) or 1..40 (thorough: 8000 per spec) ops over 2-6 names whose sort order differs from insertion order; weights all-NaN, all-real or wild; one history in 25 contains a batch of 64..70 edges; in half of the histories an identical edge is handed over as the very same Arc again) run in lock-step with the reference Model, plus the same nodes/edges through new_from_nodes_and_edges. A history is non-trivial iff it exercised at least one policy branch (self-loop stored/dropped/rejected, node created/rejected, duplicate appended/rejected/ignored/replaced, node re-add, failing batch); distinct = distinct (specs, history) hashes.",
         "assumptions": COMMON + ["where the statement leaves an outcome open (self-loop on an unknown node) either order of checks is accepted (DESIGN 2.2 ambiguity sets)"],
         "min_reach": {"any": ["branch:D:selfloop:stored", "branch:D:selfloop:dropped", "branch:D:selfloop:rejected", "branch:U:duplicate:replaced:opposite-orientation", "branch:U:duplicate:ignored:opposite-orientation", "branch:D:duplicate:appended", "branch:D:missing-node:created", "branch:U:missing-node:rejected", "branch:node-readd", "branch:failing-batch-with-nonempty-prefix", "checked:failed-call-left-graph-unchanged", "checked:ignored-call-left-graph-unchanged", "reach:same-arc-passed-again"]},
     },
